@@ -45,6 +45,9 @@ pub enum Step {
     Spawn(Vec<Step>),
     /// sleep(Duration::MAX): never completes
     SleepForever,
+    /// in the module's first incarnation: request shutdown and restart after DURS[i]; all tasks of the module are
+    /// cancelled at the end of this event and every script starts over at the restart time (where this step is a no-op)
+    ShutdownRestart(u8),
 }
 
 #[derive(Clone, Debug, Serialize, Deserialize)]
@@ -68,7 +71,7 @@ fn d(i: u8) -> u128 {
 // ------------------------------------------------------------------------------------------
 // real execution
 
-fn run_script(task: String, steps: Vec<Step>) -> std::pin::Pin<Box<dyn std::future::Future<Output = ()> + Send>> {
+fn run_script(task: String, steps: Vec<Step>, inc: u8) -> std::pin::Pin<Box<dyn std::future::Future<Output = ()> + Send>> {
     Box::pin(async move {
         for (k, s) in steps.into_iter().enumerate() {
             match s {
@@ -141,12 +144,20 @@ fn run_script(task: String, steps: Vec<Step>) -> std::pin::Pin<Box<dyn std::futu
                 }
                 Step::Spawn(script) => {
                     let name = format!("{task}.{k}");
-                    current().join(tokio::spawn(run_script(name, script)));
+                    current().try_join(tokio::spawn(run_script(name, script, inc)));
                     net::log(&task, k as i64, 0);
                 }
                 Step::SleepForever => {
                     sleep(Duration::MAX).await;
                     net::log(&task, k as i64, 0);
+                }
+                Step::ShutdownRestart(a) => {
+                    if inc == 1 {
+                        net::log(&task, k as i64, 7);
+                        current().shutdow_and_restart_in(du(d(a)));
+                    } else {
+                        net::log(&task, k as i64, 8);
+                    }
                 }
             }
         }
@@ -156,15 +167,34 @@ fn run_script(task: String, steps: Vec<Step>) -> std::pin::Pin<Box<dyn std::futu
 
 struct TimerMod {
     spec: ModSpec,
+    inc: u8,
+}
+
+fn has_restart(steps: &[Step]) -> bool {
+    steps.iter().any(|s| match s {
+        Step::ShutdownRestart(_) => true,
+        Step::Spawn(c) => has_restart(c),
+        _ => false,
+    })
 }
 
 impl Module for TimerMod {
     fn at_sim_start(&mut self, _: usize) {
+        self.inc += 1;
+        let restarting = self.spec.tasks.iter().any(|t| has_restart(t));
         for (i, script) in self.spec.tasks.iter().enumerate() {
-            current().join(tokio::spawn(run_script(format!("t{i}"), script.clone())));
+            let h = tokio::spawn(run_script(format!("i{}:t{i}", self.inc), script.clone(), self.inc));
+            // handles of a cancelled incarnation would be reported as errors: such modules only try_join
+            if restarting {
+                current().try_join(h);
+            } else {
+                current().join(h);
+            }
         }
-        for (k, n) in self.spec.noise.iter().enumerate() {
-            schedule_at(Message::default().id(k as u16), st(d(*n) + 500_000));
+        if self.inc == 1 {
+            for (k, n) in self.spec.noise.iter().enumerate() {
+                schedule_at(Message::default().id(k as u16), st(d(*n) + 500_000));
+            }
         }
     }
     fn handle_message(&mut self, _: Message) {}
@@ -182,9 +212,10 @@ struct Flags {
     equal_deadlines: bool,
     missed_tick: bool,
     forever: bool,
+    restarted: bool,
 }
 
-fn model_script(task: &str, steps: &[Step], start: u128, out: &mut Vec<L>, deadlines: &mut Vec<u128>, fl: &mut Flags) -> bool {
+fn model_script(task: &str, steps: &[Step], start: u128, out: &mut Vec<L>, deadlines: &mut Vec<u128>, fl: &mut Flags, inc: u8, shutdown: &mut Option<(u128, u128)>) -> bool {
     let mut now = start;
     // a timer that was registered and then dropped / left behind at this deadline
     let mut leftover: Option<u128> = None;
@@ -301,13 +332,24 @@ fn model_script(task: &str, steps: &[Step], start: u128, out: &mut Vec<L>, deadl
                 out.push((task.into(), k, 0, now));
                 let name = format!("{task}.{k}");
                 // the child starts in the same instant
-                if !model_script(&name, script, now, out, deadlines, fl) {
+                if !model_script(&name, script, now, out, deadlines, fl, inc, shutdown) {
                     // child never finishes; the parent goes on
                 }
             }
             Step::SleepForever => {
                 fl.forever = true;
                 return false;
+            }
+            Step::ShutdownRestart(a) => {
+                if inc == 1 {
+                    out.push((task.into(), k, 7, now));
+                    // the earliest request decides (the generator puts at most one such step into a module)
+                    if shutdown.map_or(true, |(t, _)| now < t) {
+                        *shutdown = Some((now, now + d(*a)));
+                    }
+                } else {
+                    out.push((task.into(), k, 8, now));
+                }
             }
         }
     }
@@ -351,7 +393,7 @@ pub fn run_case(case: &Case) -> Result<(bool, Vec<&'static str>), Failure> {
     net::log_clear();
     let mut sim = Sim::new(());
     for (i, m) in mods.iter().enumerate() {
-        sim.node(format!("m{i}"), TimerMod { spec: m.clone() });
+        sim.node(format!("m{i}"), TimerMod { spec: m.clone(), inc: 0 });
     }
     // a deterministic event budget turns a livelock (time never advances) into a reportable failure
     fn count(steps: &[Step]) -> usize {
@@ -394,11 +436,24 @@ pub fn run_case(case: &Case) -> Result<(bool, Vec<&'static str>), Failure> {
         let mut want: Vec<L> = Vec::new();
         let mut deadlines = Vec::new();
         let mut all_finish = true;
+        let mut shutdown: Option<(u128, u128)> = None;
         for (t, script) in m.tasks.iter().enumerate() {
-            model_script(&format!("t{t}"), script, 0, &mut want, &mut deadlines, &mut fl);
+            model_script(&format!("i1:t{t}"), script, 0, &mut want, &mut deadlines, &mut fl, 1, &mut shutdown);
             if !script_finishes(script) {
                 all_finish = false;
             }
+        }
+        if let Some((ts, tr)) = shutdown {
+            // everything of the first incarnation after the instant of the request never happens ...
+            want.retain(|e| e.3 <= ts);
+            // ... and at the restart time every script starts over
+            let mut none = None;
+            for (t, script) in m.tasks.iter().enumerate() {
+                model_script(&format!("i2:t{t}"), script, tr, &mut want, &mut deadlines, &mut fl, 2, &mut none);
+            }
+            fl.restarted = true;
+            // such modules only try_join their tasks: no NotFinished is reported for them
+            all_finish = true;
         }
         if !all_finish {
             unfinished_mods.push(path.clone());
@@ -489,6 +544,9 @@ pub fn run_case(case: &Case) -> Result<(bool, Vec<&'static str>), Failure> {
     if fl.forever {
         labels.push("far-future-sleep");
     }
+    if fl.restarted {
+        labels.push("module-restart");
+    }
     if mods.iter().any(|m| !m.noise.is_empty()) {
         labels.push("unrelated-traffic");
     }
@@ -501,10 +559,10 @@ impl Prop for C05 {
 
     fn rule() -> String {
         "proptest: 1..3 modules x 1..4 tasks, each a script over Sleep | SleepUntil | Timeout{Ready,Pending,Sleep} | Interval{period, Burst/Delay/Skip, \
-         ticks, work} | select!{biased; sleep, sleep, [ready]} | ResetThenAwait | PollOnceThenDrop | Spawn(child script) | sleep(Duration::MAX), with \
+         ticks, work} | select!{biased; sleep, sleep, [ready]} | ResetThenAwait | PollOnceThenDrop | Spawn(child script) | sleep(Duration::MAX) | one shutdown-and-restart request per module, with \
          durations from a small lattice (0, 1..6 ms, 10/20/50 ms, 1 s, 7 s, 1 h) so that equal deadlines, dropped timers preceding live ones and \
          already-elapsed deadlines are frequent, plus unrelated self-messages. Oracle: an exact sequential model per task (tasks do not \
-         communicate): completion instants and outcomes (Ok/Elapsed, select branch, scheduled tick instants with the documented 5 ms missed-tick \
+         communicate; after a shutdown request nothing later than that instant happens and every script starts over at the restart time): completion instants and outcomes (Ok/Elapsed, select branch, scheduled tick instants with the documented 5 ms missed-tick \
          rule) must match log entry by log entry; run() is Ok unless a task ends in a far-future wait (then exactly NotFinished for that module). \
          Non-trivial iff a registered timer is dropped/reset/left behind while a later deadline of the same task is still awaited, or two equal \
          deadlines exist in a module, or an interval misses a tick."
@@ -545,7 +603,20 @@ impl Prop for C05 {
             v.extend(f);
             v
         });
-        let m = (proptest::collection::vec(task, 1..=4), proptest::collection::vec(dur, 0..4)).prop_map(|(tasks, noise)| ModSpec { tasks, noise });
+        let m = (
+            proptest::collection::vec(task, 1..=4),
+            proptest::collection::vec(dur.clone(), 0..4),
+            proptest::option::weighted(0.25, (any::<u16>(), 0u8..9)),
+        )
+            .prop_map(|(mut tasks, noise, restart)| {
+                // at most one shutdown/restart request per module (two in one instant would be ambiguous)
+                if let Some((pos, delay)) = restart {
+                    let t0 = &mut tasks[0];
+                    let at = idx(pos, t0.len() + 1);
+                    t0.insert(at, Step::ShutdownRestart(delay));
+                }
+                ModSpec { tasks, noise }
+            });
         proptest::collection::vec(m, 1..=3).prop_map(|mods| Case { mods }).boxed()
     }
     fn run(case: &Case) -> Outcome {
